@@ -90,12 +90,14 @@ class SymCtx:
                 return
             self.eng.get_model()
             self._viol_model = self.eng.model
+            self._viol_cond = None
             raise Violation(sig, detail)
         r = self.eng.check(z3.Not(cond.z))
         if r == 'unsat':
             return
         if r == 'sat' and self.eng._last_model is not None:
             self._viol_model = self.eng._last_model
+            self._viol_cond = z3.Not(cond.z)
             raise Violation(sig, detail)
         raise Inconclusive('property query undecided: %s' % sig)
 
@@ -442,6 +444,52 @@ def explore(fam, tier='quick', budget_s=60, timeout_ms=3000, slow_ms=20000, max_
     return res
 
 
+class _CandidateStream:
+    """the first candidates, then up to 6 further models of (path condition and violated requirement) that differ from
+    all earlier ones in every free parameter if possible, else in at least one: a counterexample of the exact-real model
+    that does not reproduce with floats at one point (e.g. at a lattice value where rounding is invisible) may reproduce at another"""
+
+    def __init__(self, eng, ctx, first):
+        self.eng, self.ctx, self.first = eng, ctx, list(first)
+
+    def __iter__(self):
+        seen = []
+        for v in self.first:
+            seen.append(v)
+            yield v
+        cond = getattr(self.ctx, '_viol_cond', None)
+        try:
+            s = z3.Solver()
+            s.set('timeout', 3000)
+            for c in self.eng.pc:
+                s.add(c)
+            if cond is not None:
+                s.add(cond)
+            zs = {n: self.eng.vars[vid]['z'] for n, vid in self.eng.params.items() if self.eng.vars[vid]['kind'] == 'param'}
+            for _ in range(6):
+                s.push()
+                for v in seen:
+                    for n, z in zs.items():
+                        if n in v:
+                            s.add(z != core._q(v[n]))
+                r = str(s.check())
+                if r != 'sat':
+                    s.pop()
+                    s.push()
+                    for v in seen:
+                        s.add(z3.Or(*[z != core._q(v[n]) for n, z in zs.items() if n in v]))
+                    r = str(s.check())
+                if r != 'sat':
+                    s.pop()
+                    return
+                vals = self.ctx.values(s.model())
+                s.pop()
+                seen.append(vals)
+                yield vals
+        except Exception:
+            return
+
+
 def _handle_violation(fam, eng, ctx, viol):
     model = ctx._viol_model
     entry = dict(sig=viol.sig, detail=str(viol.detail)[:300], family=fam.fid, replayed=False)
@@ -452,6 +500,7 @@ def _handle_violation(fam, eng, ctx, viol):
         except Exception:
             pass
         cands.append(ctx.values(model))
+        cands = _CandidateStream(eng, ctx, cands)
         for vals in cands:
             core.set_engine(None)
             c = run_concrete(fam, vals)
@@ -478,7 +527,7 @@ def _worker(args):
         # planted-defect twin: an in-memory mutant of an anchored function; /repo is never touched
         mod.TWINS[opts['twin']][1]()
     try:
-        return explore(fam, tier=opts['tier'], budget_s=fam.budget_s or opts['budget_s'], timeout_ms=fam.timeout_ms or opts['timeout_ms'], extra_witnesses=opts.get('extra_witnesses', 0),
+        return explore(fam, tier=opts['tier'], budget_s=min(fam.budget_s or opts['budget_s'], opts.get('family_cap') or 1e9), timeout_ms=fam.timeout_ms or opts['timeout_ms'], extra_witnesses=opts.get('extra_witnesses', 0),
                        slow_ms=opts['slow_ms'])
     except BaseException as e:
         return dict(family=fam.fid, paths=0, undecided=1, violations=[], outcomes={}, validated=0, diverged=[],
@@ -587,8 +636,17 @@ def main_check(prop, modname, tier, seed, level_note, bounds, outside_claim, ass
                 extra_witnesses=getattr(mod, 'EXTRA_WITNESSES', {}).get(tier, 2 if tier == 'quick' else 6))
     # the thorough tier starts families (in seeded random order) for at most WALL_CAP seconds; families not started are listed
     # in the evidence as not run and nothing is claimed for them
+    fcap = float(os.environ.get('VERIF_FAMILY_CAP', 480))
+    if tier == 'thorough':
+        # per-family budgets of the thorough tier are clamped (VERIF_FAMILY_CAP seconds) so that the families still running when the
+        # wall cap is reached end within a bounded time
+        opts['budget_s'] = min(opts['budget_s'], fcap)
+        opts['family_cap'] = fcap
+        for f in fams:
+            if f.budget_s:
+                f.budget_s = min(f.budget_s, fcap)
     cap = os.environ.get('VERIF_WALL_CAP')
-    opts['wall_cap_s'] = float(cap) if cap else (getattr(mod, 'WALL_CAP', {}).get(tier) or (1500 if tier == 'thorough' else None))
+    opts['wall_cap_s'] = float(cap) if cap else (getattr(mod, 'WALL_CAP', {}).get(tier) or (600 if tier == 'thorough' else None))
     jobs = jobs or min(16, os.cpu_count() or 4)
     results = schedule(modname, fams, idxs, opts, jobs)
     twins = run_twins(mod, modname, fams, opts, jobs) if not only else []
